@@ -164,7 +164,7 @@ class Report(object):
             print("KNOWN-FINDING: property=%s %s [%d occurrence(s) this run; e.g. %s]" % (
                 self.prop, e.get("what", key), cnt, detail[:160]))
         rdir = os.path.join(VERIF, "replays", self.prop)
-        if os.path.isdir(rdir) and os.environ.get("VERIF_NO_EVIDENCE") != "1":
+        if os.path.isdir(rdir):
             for fn in os.listdir(rdir):      # replay files of earlier runs are stale
                 if fn.endswith(".json"):
                     os.unlink(os.path.join(rdir, fn))
